@@ -40,7 +40,7 @@ def judge(part, case, key, out):
         return
     if classes[base] == "accepted":
         for f in forms[1:]:
-            d = cmp.diff_dataset(out[base][1], out[f][1], check_structure=False)
+            d = cmp.diff_dataset(out[base][1], out[f][1], rel=1e-13, check_structure=False)   # same content through the same engine: equal up to binary representation noise (1e-13 relative = a few hundred ulps), far below the 10-decimal quantisation step of the load type
             if d:
                 part.fail("result_differs:%s:%s_vs_%s" % (key, base, f), case, "%s vs %s: %s" % (base, f, d))
                 return
